@@ -39,6 +39,11 @@ func zzInput(c zzCfg) [][]string {
 				// any cell may be empty (the explorer decides which)
 				l = 0
 			}
+			if zzverif.Param("bigRow", 0) == i+1 && j == c.ncols-1 {
+				// one row outweighs the others together: at some run size this row alone is
+				// spilled and the rest stays in memory as an unsorted tail
+				l = 12
+			}
 			in[i][j] = zzverif.String("cell", l)
 		}
 	}
